@@ -121,3 +121,8 @@ def cases(tier, seed, ctx=None):
     # the TLS configuration is set on a server that is already listening and has served n plain connections: TLS-only from then on
     for n in (0, 1, 3):
         yield ("tls", [8, n], "configured-while-serving")
+    # the application sets the TLS configuration again (certificate renewal) while an established connection has a request in flight
+    # (the handler answers 60 ms after it was called): that request is still answered
+    for j in range(3 if quick else 12):
+        yield ("tlsraw", [b"POST /x HTTP/1.1\r\nContent-Length: 5\r\n\r\nhello", j % 2, 60, [], 1, 0, 0, rng.choice([15, 25, 35])], "raw-client-reconfigured-in-flight")
+    # header lines that repeat a (name, value) pair are relayed as often as they were sent (C13) - placeholder: see gen_c13
